@@ -92,6 +92,10 @@ func collectMsgs(n ast.Node, f func(*ast.MsgNode)) {
 	}
 	if m, ok := n.(*ast.MsgNode); ok {
 		f(m)
+		// (a call inside the message may hold further messages in the content of its params)
+		for _, c := range m.Body.Children() {
+			collectMsgs(c, f)
+		}
 		return
 	}
 	if p, ok := n.(ast.ParentNode); ok {
@@ -179,7 +183,7 @@ func genC08(t *rapid.T) C08Case {
 		}
 	}
 	for i, n := 0, rapid.IntRange(4, scale(25, 60)).Draw(t, "nops"); i < n; i++ {
-		op := C08Op{Op: rapid.SampledFrom([]string{"render", "render", "render", "renderMsgs", "js", "jsMsgs", "config", "renderFail", "rows", "keys"}).Draw(t, "op")}
+		op := C08Op{Op: rapid.SampledFrom([]string{"render", "render", "render", "renderMsgs", "js", "jsMsgs", "config", "renderFail", "rows", "keys", "mapFail"}).Draw(t, "op")}
 		op.Via = rapid.IntRange(0, 1).Draw(t, "via")
 		op.Tmpl = rapid.IntRange(0, 7).Draw(t, "tmpl")
 		op.Data = rapid.IntRange(0, 3).Draw(t, "data")
@@ -193,12 +197,14 @@ func genC08(t *rapid.T) C08Case {
 // both called "row" (see localRowA / localRowB) must each show their own fields, whatever came before.
 const c08Keys = "\n/** @param m */\n{template .zzKeyOrder}{foreach $k in keys($m)}{$k}={$m[$k]};{/foreach}{let $lit: ['b': 1, 'a': 2, 'd': 3, 'c': 4] /}{foreach $k in keys($lit)}{$k}{/foreach}{/template}\n"
 
+const c08MapFail = "\n/**\n * @param? a\n * @param? b\n * @param? c\n * @param? d */\n{template .zzMapFail}\n{let $m: ['k1': $a.p,\n 'k2': $b.q,\n 'k3': $c.r,\n 'k4': $d.s] /}{$m}{/template}\n"
+
 const c08Rows = "\n/**\n * @param? name\n * @param? qty\n * @param? title\n * @param? count */\n{template .zzRows}{$name ?: '-'}|{$qty ?: '-'}|{$title ?: '-'}|{$count ?: '-'}{/template}\n"
 
 func checkC08(c C08Case) Verdict {
 	names, srcs := gen.Sources(&c.Prog.Prog)
 	if len(srcs) > 0 {
-		srcs[0] += c08Rows + c08Keys
+		srcs[0] += c08Rows + c08Keys + c08MapFail
 	}
 	cb, err, pn := compileBundle(names, srcs, c.Prog.Prog.Globals)
 	if err != nil || pn != nil {
@@ -301,6 +307,19 @@ func checkC08(c C08Case) Verdict {
 			})
 			k.d = op.Data % 5
 			result = fmt.Sprintf("out=%q err=%v panic=%v", buf.String(), rerr != nil, p != nil)
+		case "mapFail":
+			// a render that fails while it evaluates the values of a map literal, each of which fails: the
+			// same render fails the same way every time (the error is what the caller gets instead of output)
+			var buf bytes.Buffer
+			var rerr error
+			p := catch(func() {
+				rerr = cb.tofu.NewRenderer(c.Prog.Prog.Files[0].Namespace+".zzMapFail").Execute(&buf, data.Map{})
+			})
+			etext := ""
+			if rerr != nil {
+				etext = strings.SplitN(rerr.Error(), "\n", 2)[0]
+			}
+			result = fmt.Sprintf("out=%q err=%q panic=%v", buf.String(), etext, p != nil)
 		case "renderFail":
 			// a render whose writer stops accepting bytes: its own result is C12's matter, here it is
 			// one more thing that may have happened before the renders that are compared
